@@ -78,6 +78,39 @@ pub fn leftrec_variants<'a>() -> Vec<(&'static str, BP<'a, String>)> {
             .boxed(),
         ),
         (
+            "expr = (map_err(expr '+' atom) | atom).memoized()  (error post-processing around the recursive alternative)",
+            recursive(|expr| {
+                let sum = expr.then_ignore(just('+')).then(atom()).map(|(a, b): (String, String)| format!("({a}+{b})")).map_err(|e: Rich<char>| e);
+                sum.or(atom()).memoized()
+            })
+            .boxed(),
+        ),
+        (
+            "expr = (recover_with(expr '+' atom, via_parser('?')) | atom).memoized()",
+            recursive(|expr| {
+                let sum = expr.then_ignore(just('+')).then(atom()).map(|(a, b): (String, String)| format!("({a}+{b})")).recover_with(via_parser(just('?').to("?".to_string())));
+                sum.or(atom()).memoized()
+            })
+            .boxed(),
+        ),
+        (
+            "expr = (labelled(expr '+' atom).as_context() | custom(|inp| inp.parse(atom))).memoized()",
+            recursive(|expr| {
+                let sum = expr.then_ignore(just('+')).then(atom()).map(|(a, b): (String, String)| format!("({a}+{b})")).labelled("sum").as_context();
+                let at = atom();
+                sum.or(custom(move |inp| inp.parse(&at))).memoized()
+            })
+            .boxed(),
+        ),
+        (
+            "expr = custom(|inp| inp.parse(expr '+' atom)) | atom, memoized",
+            recursive(|expr| {
+                let sum = expr.then_ignore(just('+')).then(atom()).map(|(a, b): (String, String)| format!("({a}+{b})")).boxed();
+                custom(move |inp| inp.parse(&sum)).or(atom()).memoized()
+            })
+            .boxed(),
+        ),
+        (
             "a = (b '+').memoized() | atom ; b = a  (indirect left recursion)",
             {
                 let mut a = Recursive::declare();
@@ -131,7 +164,8 @@ pub fn run_leftrec(name: &str, len: usize, cx: &ShardCtx) -> UnitResult {
                         // whatever tree is built, its leaves in order are the input's atoms
                         let flat: String = o.chars().filter(|c| *c == 'x' || *c == '+').collect();
                         let want: String = s.chars().collect();
-                        if flat.replace('+', "") != want.replace('+', "").replace(' ', "") || !want.chars().all(|c| c == 'x' || c == '+') {
+                        let recovering = vname.contains("recover_with");
+                        if !recovering && (flat.replace('+', "") != want.replace('+', "").replace(' ', "") || !want.chars().all(|c| c == 'x' || c == '+')) {
                             mism(&mut r, "leftrec", name, vname.to_string(), s, format!("accepted {s:?} with output {o:?} whose atoms are not the input's"));
                         }
                     }
@@ -592,7 +626,7 @@ pub fn run_depth(name: &str, depths: &[usize], cx: &ShardCtx) -> UnitResult {
     type EP<'a> = extra::Err<chumsky::error::Cheap>;
     let mut case = 0usize;
     for &d in depths {
-        for form in 0..4u8 {
+        for form in 0..6u8 {
             let me = case % cx.nshards == cx.shard;
             case += 1;
             if !me || cx.skip.contains(&(case - 1)) {
@@ -623,6 +657,20 @@ pub fn run_depth(name: &str, depths: &[usize], cx: &ShardCtx) -> UnitResult {
                     let bad: String = "-".repeat(d.max(1));
                     (p.parse(ok.as_str()).into_output(), p.check(ok.as_str()).has_output(), p.parse(bad.as_str()).has_errors(), p.check(bad.as_str()).has_errors())
                 }
+                4 => {
+                    // Pratt: prefix operator with binding power 0
+                    let p = just::<_, &str, EP>('a').to(0usize).pratt((prefix(0, just('-'), |_, n: usize, _| n + 1),));
+                    let ok: String = "-".repeat(d) + "a";
+                    let bad: String = "-".repeat(d.max(1));
+                    (p.parse(ok.as_str()).into_output(), p.check(ok.as_str()).has_output(), p.parse(bad.as_str()).has_errors(), p.check(bad.as_str()).has_errors())
+                }
+                5 => {
+                    // Pratt: right-associative infix with binding power 0, next to a left-associative one
+                    let p = just::<_, &str, EP>('a').to(0usize).pratt((infix(right(0), just('^'), |_: usize, _, r: usize, _| r + 1), infix(left(1), just('+'), |l: usize, _, _r: usize, _| l)));
+                    let ok: String = "a^".repeat(d) + "a";
+                    let bad: String = "a^".repeat(d.max(1)) + "^";
+                    (p.parse(ok.as_str()).into_output(), p.check(ok.as_str()).has_output(), p.parse(bad.as_str()).has_errors(), p.check(bad.as_str()).has_errors())
+                }
                 _ => {
                     // Pratt: right-associative infix nesting a^a^a...
                     let p = just::<_, &str, EP>('a').to(0usize).pratt((infix(right(1), just('^'), |_: usize, _, r: usize, _| r + 1),));
@@ -632,7 +680,7 @@ pub fn run_depth(name: &str, depths: &[usize], cx: &ShardCtx) -> UnitResult {
                 }
             }))
             .map_err(|e| cvh::e1::panic_msg(e));
-            let fname = ["recursive()", "declare/define", "pratt prefix", "pratt right infix"][form as usize];
+            let fname = ["recursive()", "declare/define", "pratt prefix", "pratt right infix", "pratt prefix power 0", "pratt right infix power 0"][form as usize];
             match res {
                 Err(m) => mism(&mut r, "rec-depth", name, format!("{fname} depth {d}"), "", format!("panic: {m}")),
                 Ok((o, c, be, bce)) => {
@@ -649,7 +697,7 @@ pub fn run_depth(name: &str, depths: &[usize], cx: &ShardCtx) -> UnitResult {
         }
     }
     r.distinct_outcomes = r.cases;
-    r.desc = format!("nesting depth points {:?} x (recursive(), declare/define, Pratt prefix, Pratt right-assoc infix): parse and check of the well-nested input return the depth, the ill-nested input is rejected, no stack overflow (an overflow kills the worker and is attributed to the case). These are points, not an enumeration of all depths", depths);
+    r.desc = format!("nesting depth points {:?} x (recursive(), declare/define, Pratt prefix and right-assoc infix with binding powers 1 and 0): parse and check of the well-nested input return the depth, the ill-nested input is rejected, no stack overflow (an overflow kills the worker and is attributed to the case). These are points, not an enumeration of all depths", depths);
     r
 }
 
